@@ -61,7 +61,7 @@ def guarded_check(out, inp, fn, *args):
         out.fail("node-link-does-not-terminate", f"linking two nodes (Node.__add__) or walking their tables exceeds the {st} bound", inp, observed=st)
     return None
 LEAN_TARGETS = ["BeyondVerif.Props.C20", "BeyondVerif.Props.C20Forest", "BeyondVerif.Props.C20Graph", "BeyondVerif.Props.C20Registry", "BeyondVerif.Props.C20Named",
-                "BeyondVerif.Props.C20NamedForest", "BeyondVerif.Props.C20Convert", "BeyondVerif.Props.C20LinkKey", "BeyondVerif.Props.C20LinkKeyReg", "BeyondVerif.Witness.C20"]
+                "BeyondVerif.Props.C20NamedForest", "BeyondVerif.Props.C20Convert", "BeyondVerif.Props.C20LinkKey", "BeyondVerif.Props.C20LinkKeyReg", "BeyondVerif.Props.C20Small", "BeyondVerif.Witness.C20"]
 THEOREMS = [
     "BeyondVerif.C20.path_valid_chain",
     "BeyondVerif.C20.nbrs_iff_linked",
@@ -87,6 +87,10 @@ THEOREMS = [
     "BeyondVerif.C20.graph_routes_total_bounded",
     "BeyondVerif.C20.graph_steps_bound",
     "BeyondVerif.C20.shortest_if_steps_not_stale",
+    "BeyondVerif.C20.link_ext",
+    "BeyondVerif.C20.shortest_of_closed",
+    "BeyondVerif.C20.three_nodes_shortest",
+    "BeyondVerif.C20.four_nodes_shortest_of_certificate",
     "BeyondVerif.C20.forestHist_perm",
     "BeyondVerif.C20.tree_any_order_routes_exact",
     "BeyondVerif.C20.tree_any_order_routingExact",
@@ -131,6 +135,9 @@ LEVEL_TEXT = ("Lean theorems over the routing model. ANY graph (cycles, repeated
               "the walk of path terminates, the returned path is a chain of inserted links without repeated node (<= n - 1 hops), never longer than the steps field of the "
               "source's entry, and it is a shortest chain whenever that field is not stale (graph_routes_total, graph_path_simple, graph_steps_bound, shortest_if_steps_not_stale, "
               "graph_build_succeeds; by a descent invariant kept by every single table rebuild, ginv_refresh, and a generic induction over the depth-first _update, update_traverse). "
+              "SMALL node sets: on <= 3 nodes EVERY history (any length, repeats, the triangle) routes every pair along a shortest chain (three_nodes_shortest: finite certificate of the reachable "
+              "states evaluated by the kernel, sound for every history by shortest_of_closed; the model reads the graph only through get: link_ext); on 4 nodes the same given the certificate "
+              "(four_nodes_shortest_of_certificate; evaluated by the compiled model in every run). "
               "FORESTS of any size, in ANY order of their links (forestHist_perm, tree_any_order_routes_exact): every connected pair is routed along the unique simple chain, every "
               "unconnected pair is Unknown, fuel >= number of nodes suffices (forest_routes_exact, forest_routes_exact_bounded, forest_path_unique, forest_tables_exact, forest_routingExact); "
               "linking a fresh leaf changes no existing route (new_registration_preserves); the three built-in graphs, regenerated from the source in execution order each run, and all forest "
@@ -171,6 +178,8 @@ TRUSTED = [
     "freely spelled names, including names containing '_to_' / ending with '_to' whose pairs share one attribute name",
     "correspondence closure: every state reachable on 2, 3, 4 nodes (complete: 2 / 16 / 1474 states) and on 5 nodes within 4 (quick) / 6 (thorough) rounds by ANY sequence of links is "
     "explored independently in the compiled model (driver op closure) and on the real Node class; numbers of states, of non-shortest states / pairs, worst detour and stretch must agree",
+    "driver op closed4: the compiled model evaluates the certificate closedB of Props/C20Small.lean on the enumerated states of <= 4 nodes (hypothesis of "
+    "four_nodes_shortest_of_certificate; the 3-node certificate is also evaluated by the kernel, closed3)",
     "correspondence link names: goodName / linkKey of the compiled model vs Python's `in` / endswith / f-string on the same names",
     "correspondence real-registry: in a forked child every Node.__add__ (patched) and every stored '<a>_to_<b>' attribute (class / instance dict comparison before and after each "
     "public-API registration: solarsystem, jpl with tests/data/jpl, lagrange, stations below any frame, orbit frames, re-registrations) is recorded and replayed in the compiled registry "
@@ -191,8 +200,12 @@ ASSUMPTIONS = [
     "no conversion runs in the middle of a registration site (a site's link and setattr are observed together)",
 ]
 OPEN = [
-    "'shortest on every history on <= 4 nodes' and the figures for 5 nodes (6360 of 2 206 106 reachable states route one pair with one hop too many) are exhaustive explorations of the compiled "
-    "model compared with the real class (<= 4 nodes complete in every run; 5 nodes complete once, corpus/C20_closure5.json, bounded rounds in every run), not kernel theorems; "
+    "'shortest on every history on <= 4 nodes': a kernel theorem for <= 3 nodes (three_nodes_shortest); for 4 nodes a theorem GIVEN the Boolean certificate closedB pairs4 (reachable pairs4) "
+    "(four_nodes_shortest_of_certificate; soundness of the certificate proved for every history: shortest_of_closed), which the compiled model evaluates to true in every run (driver op "
+    "closed4, 1582 states) - its evaluation by the kernel was measured at about 8 CPU-minutes / 5 GB in 16 slices and is not part of the build; independently, the exhaustive exploration of "
+    "the compiled model is compared with the real class (<= 4 nodes complete in every run)",
+    "the figures for 5 nodes (6360 of 2 206 106 reachable states route one pair with one hop too many) are an exhaustive exploration of the compiled model (complete once, "
+    "corpus/C20_closure5.json, bounded rounds against the real class in every run), not kernel theorems; "
     "'rings closed last take n - 2 hops for distance 2' is kernel-checked for n <= 8 and compared with the real class up to 30 nodes, not proved for every n",
     "which of several equidistant nodes of one name a route reaches (depends on the neighbour order) is not characterised",
 ]
@@ -203,6 +216,10 @@ NOT_COVERED = ["'a shortest chain in general' is false of the current code (know
                "which of several live nodes of ONE name a conversion designates beyond 'a nearest one': the newest registration of a key shadows the older one; "
                "numerical results of conversions that pass through such a name (analytical and JPL 'Sun' both alive; a frame hanging behind a station that was re-created under its name) "
                "are not claimed - the property speaks of registrations under new names",
+               "the VALUE composed along the chain (order in which Orientation.convert_to multiplies the link matrices, inversion of the links followed backward; the sum of offsets in "
+               "Center.convert_to): C20 stops at the chain of (step, direct / reverse, resolved link method), which is compared with a real convert_to call; that the result equals the "
+               "link-by-link composition is C02's clause (path independence A->B->C = A->C) - seeded/C20-m9 (wrong product order for a chain that goes backward first and direct "
+               "afterwards) leaves every chain, direction flag and resolved method unchanged and is reported by C02, deliberately not by C20",
                "self-links `a + a` in the any-graph theorems (modelled and compared, not covered by the descent invariant)"]
 RULE = ("correspondence: exhaustive enumeration of forest insertion histories (all orders, all orientations, every prefix) "
         "on n<=5 (quick) / n<=6 (thorough) nodes plus random forests (<=40 nodes), random cyclic graphs, random multigraphs with self-links and repeated links, rings closed last (5..15 / 5..30 "
@@ -637,6 +654,17 @@ def correspondence_closure(ctx, out):
     if any(f["family"] in ("node-tables", "node-real-side", "node-interleaved") for f in out.failures):
         out.notes.append("closure exploration skipped: the model and the real class already disagree on single histories")
         return
+    # certificate of Props/C20Small.lean (hypothesis of four_nodes_shortest_of_certificate; closed3 is also a kernel theorem)
+    reply = core.Driver().run(["closed4"])[0]
+    out.count(key=("closed4",), kind="closed4-certificate", nontrivial=True)
+    out.notes.append("certificate closedB (Props/C20Small.lean), compiled model: " + reply[:120])
+    try:
+        cm = {k: int(v) for k, v in (x.split("=") for x in reply.split())}
+    except Exception:  # noqa: BLE001
+        cm = {}
+    if cm.get("closed4") != 1 or cm.get("closed3") != 1:
+        out.fail("small-graph-certificate", "the certificate closedB of Props/C20Small.lean (reachable states on <= 4 nodes closed under every link, no stale steps field) "
+                 "does not evaluate to true in the compiled model", {"op": "closed4"}, observed=reply[:200])
     plan = [(2, 40), (3, 40), (4, 40), (5, ctx.n(4, 6))]
     for n, rounds in plan:
         reply = core.Driver().run([f"closure {n} 3000000 {rounds}"])[0]
